@@ -324,8 +324,8 @@ func (g *gen) anyExpr(d int) ex {
 		}
 		return ex{s: g.w(g.expr(kObj, d-1), pCall) + "[" + g.expr(kStr, d-1).s + "]", p: pCall}
 	case 19:
-		// void of something simple (complex operands are the K03 shape)
-		if g.known && r.Chance(1, 3) {
+		// void of any operand (K03, repaired: the operand's calls must survive), else of something simple
+		if r.Chance(1, 3) {
 			return ex{s: cat("void", g.w(g.expr(kAny, d-1), pUnary)), p: pUnary}
 		}
 		switch r.Intn(3) {
